@@ -36,7 +36,7 @@ NAME = "c17_writers"
 PROP = "C17"
 LEVEL = "exploration"
 RULE = (
-    "run indices below the systematic bound enumerate, per writer target (15 URIs: stream plain/gz/bz2/lz4/zst, jsonfile, avro, sqlite, csv, "
+    "run indices below the systematic bound enumerate, per writer target (19 URIs incl. relative ones: stream plain/gz/bz2/lz4/zst, jsonfile, avro, sqlite, csv, "
     "line, text, split over stream/gz/jsonfile/csv), every body of <= 5 write/flush calls x 6 ways of ending (close, close+close, "
     "flush+close, with-exit, with-body-raises, exit+close); above it, seeded histories up to 40 ops with split limits 1..7, suffix lengths, "
     "record counts covering every residue, buffer sizes, and archive runs (<= 40 ops) under a simulated clock. One evaluation = one history "
@@ -70,6 +70,11 @@ TARGETS = [
     ("split-gz", "split:///simfs/p.records.gz?count={count}&suffix-length={sl}"),
     ("split-json", "split+jsonfile:///simfs/p.jsonl?count={count}&suffix-length={sl}"),
     ("split-csv", "split+csvfile:///simfs/p.csv?count={count}&suffix-length={sl}"),
+    # relative targets (resolved in a simulated working directory)
+    ("stream", "rel.records"),
+    ("split-json", "split+jsonfile://rel.jsonl?count={count}&suffix-length={sl}"),
+    ("split-csv", "split+csvfile://sub/rel.csv?count={count}&suffix-length={sl}"),
+    ("split-stream", "split://rel.records?count={count}&suffix-length={sl}"),
 ]
 TERMINATORS = ["c", "cc", "fc", "X", "R", "Xc"]  # c close, f flush, X with-exit, R with body raising then exit
 BODIES = [""]
@@ -85,7 +90,7 @@ POOL = {
 
 
 def budget(tier):
-    return N_SYS + (6000 if tier == "quick" else 600000)
+    return N_SYS + (60000 if tier == "quick" else 3000000)
 
 
 def wall_cap(tier):
@@ -293,6 +298,8 @@ def run_history(plan, w, viols, states):
         uri = uri.replace("{scratch}", scratch)
     uri = uri.replace("{count}", str(plan["count"])).replace("{sl}", str(plan["sl"]))
     w.fs.buffer_size = plan.get("buffer_size", 8192)
+    w.sim_cwd = "/simfs/cwd"
+    w.fs.makedirs("/simfs/cwd/sub", exist_ok=True)
     pool = Pool(plan["pool"])
     model = []  # (n, s) of records whose write returned
     attempted = 0
